@@ -130,6 +130,14 @@ def hostile_tree_files(lang, rng, seed):
         files["long" + ext] = canon.file_with_functions(lang, [rng.choice([35, 61, 70])]).encode()
     t = hostile.targeted(lang)
     files["src/targeted" + ext] = t[rng.randrange(len(t))].encode("utf-8", "replace")
+    # interactions between the functions of ONE file: equal names, equal lengths, equal names and lengths (overloads, same-named
+    # methods of two classes, copy-pasted duplicates), around and above the reporting thresholds
+    n = rng.choice([31, 35, 61, 70])
+    one = canon.exact_length_function(lang, n, "twice", indent=4 if lang in ("Java", "C#") else 0)
+    other = canon.exact_length_function(lang, n, "other", indent=4 if lang in ("Java", "C#") else 0)
+    parts = rng.choice([[one, one], [one, one, one], [one, other, one], [one, canon.exact_length_function(lang, n + 1, "twice", indent=4 if lang in ("Java", "C#") else 0)]])
+    body = "\n".join(parts)
+    files["src/duplicates" + ext] = (("public class Holder {\n" + body + "}\n") if lang in ("Java", "C#") else body).encode()
     return files
 
 
